@@ -486,7 +486,7 @@ class BackendProvider(ABC):
         """
         Recursively apply function f to all elements of a nested structure.
         """
-        return self.kg_asarray([self.rec_fn(x, f) for x in a]) if self._is_list(a) else f(a)
+        return self.kg_asarray([self.rec_fn(x, f) for x in a]) if isinstance(a, (np.ndarray, list, tuple)) else f(a)
 
     def _is_list(self, x):
         """Check if x is a list-like structure (array or list, non-empty)."""
